@@ -485,7 +485,8 @@ func c06Peer(r *fw.R, d c06Desc, code, rl int) {
 		peer.Locked(func() {
 			if !peer.Conf.CloseSeen {
 				r.Violate("C06/close-not-echoed", what+": no Close frame was sent back", "")
-			} else if string(peer.Conf.ClosePay) != string(pay) {
+			} else if echo := peer.Conf.ClosePay; len(pay) < 2 && len(echo) != 0 || len(pay) >= 2 && (len(echo) < 2 || string(echo[:2]) != string(pay[:2])) {
+				// the echo carries the same CODE (none, if none was received); its reason is the library's choice
 				r.Violate("C06/close-echo-differs", fmt.Sprintf("%s: echoed payload %x, received %x", what, peer.Conf.ClosePay, pay), "")
 			}
 		})
